@@ -43,8 +43,9 @@ class LexError(Exception):
         self.msg, self.pos = msg, pos
 
 
-def tokenize(text):
-    """-> list of tokens; raises LexError on unterminated literal/comment/back-tick or illegal character."""
+def tokenize(text, comments=None):
+    """-> list of tokens; raises LexError on unterminated literal/comment/back-tick or illegal character.
+    comments: optional list that receives the text of every comment met (comments are not tokens)."""
     toks = []
     i, n = 0, len(text)
     while i < n:
@@ -54,12 +55,16 @@ def tokenize(text):
             continue
         if c == '/' and text.startswith('//', i):
             j = text.find('\n', i)
+            if comments is not None:
+                comments.append(text[i:n if j < 0 else j])
             i = n if j < 0 else j + 1
             continue
         if c == '/' and text.startswith('/*', i):
             j = text.find('*/', i + 2)
             if j < 0:
                 raise LexError('unterminated comment', i)
+            if comments is not None:
+                comments.append(text[i:j + 2])
             i = j + 2
             continue
         if c in '\'"':
